@@ -224,7 +224,7 @@ class MTSPEnv(RL4COEnvBase):
     def _get_reward(self, td, actions=None) -> TensorDict:
         # With minmax, get the maximum distance among subtours, calculated in the model
         if self.cost_type == "minmax":
-            return td["reward"].squeeze(-1)
+            return td["reward"]
 
         # With distance, same as TSP
         elif self.cost_type == "sum":
